@@ -630,7 +630,19 @@ fn pipeline_b(
     let mut count = 0usize;
     // readdir order is not owned by the simulator: collect, then process in name order
     let mut listed: Vec<pkgsrc::pkgdb::Package> = Vec::new();
-    for item in db {
+    let mut db = db;
+    loop {
+        let item = match db.next() {
+            Some(i) => i,
+            None => {
+                // an exhausted iterator may be polled again; it must return normally
+                for _ in 0..2 {
+                    let again = db.next();
+                    ep!(ctx, "PkgDB::next after end", again.is_none());
+                }
+                break;
+            }
+        };
         count += 1;
         ensure!(
             count <= pkgs.len() + 8,
@@ -990,7 +1002,8 @@ fn gen_read_script(rng: &mut Rng, len: usize) -> Vec<ReadStep> {
     }
     if rng.chance(1, 5) {
         let at = rng.urange(0, s.len());
-        s.insert(at, ReadStep::Fail(*rng.pick(&ErrKind::ALL)));
+        let k = *rng.pick(&ErrKind::ALL);
+        s.insert(at, if rng.chance(1, 2) { ReadStep::FailForever(k) } else { ReadStep::Fail(k) });
     } else if rng.chance(1, 6) {
         let at = rng.urange(0, s.len());
         s.insert(at, ReadStep::Eof);
